@@ -25,6 +25,10 @@ CHECKS = {
    text="For 7 templates (block or string payload as first or second argument of five handlers) at each unit position of a three-unit compound whose other units are relative, every payload over the alphabet {newline ; , : # ' \" space x} up to 3 (quick) / 4 (thorough) bytes, every byte value at three positions of a block, and non-ASCII / control strings, the message is executed by run and by process::<N> under all compositions of the message into reads (messages up to 12/14 bytes) or every single and pair of cut positions, for up to four buffer sizes >= the message length; the handler log must be exactly the template's three calls with the payload delivered byte for byte, without any error.",
    note="Sound messages only (faulty ones belong to C06); expected log is constructed from the template, not from the code.",
    technique="bounded exhaustive enumeration of payloads, positions and read chunkings on the real run/process"),
+ "C09": dict(engine="hist-bfs",
+   text="Breadth-first search over operation sequences on an interface that uses the library's blanket ErrorHandler over StaticErrorQueue<CAP>: 18 operations (seven kinds of library-detected faults, two handler-raised custom errors, read-next in both spellings, read-count, a sound command, five compound messages mixing faults and queue queries) for CAP 1..4 to depth 6 (quick) / 8 (thorough), a reduced alphabet for CAP 10 to depth 14 / 16, and the ErrorQueue trait driven directly (push of three errors, pop, count) to depth 2*CAP+3. Every transition re-executes its history through the real run; each response is compared with a Vec-based reference queue, and after every operation the real queue is drained through the real pop_error and compared with the model; states are merged on (contents, pushes mod CAP, pops mod CAP).",
+   note="The Error value reported for a faulty unit is learned from a twin interface with a recording handler; description text is compared with the library's Display of that Error; in compound messages with a fault the model follows whichever of 'all / none of the later units ran' was observed (C06's freedom).",
+   technique="explicit-state breadth-first search over operation sequences executed on the real code, state merging with ring-buffer positions, reference model comparison on every transition"),
  "C10": dict(engine="env-enum",
    text="For every stream of <=3 (quick) / <=4 (thorough) messages from a 10-message pool, buffer sizes 8/16/64 (thorough: 7 sizes) and every chunking with <=2 (thorough <=3) cuts plus regular chunkings and zero-length reads, the fault-free transport trace of the real process future is checked (response buffer empty and everything owed written and flushed at every read; writes equal the responses owed for the queries that ran successfully; no empty write; result is the transport's end-of-stream error, never Ok), and then a distinct transport error is injected at every index of that call sequence - reads, writes and flushes alike: the trace must be a prefix of the fault-free trace ending at the fault, nothing may follow, and process must return that very error.",
    note="Owed responses are derived from the observed handler log and the recording interface's value table; a query unit for which an error is reported owes nothing.",
@@ -48,6 +52,7 @@ ENGINES = [
  {"name": "lex-sweep", "path": "harness/mc/src/lex.rs", "kind_free_text": "stateless exhaustive enumeration of all token strings up to a length bound, executed on the real parser / run"},
  {"name": "msg-enum", "path": "harness/mc/src/spec/msg.rs", "kind_free_text": "exhaustive enumeration of structured messages and message histories, executed on the real run/process, compared with a text-level reference model"},
  {"name": "env-bfs", "path": "harness/mc/src/bin/c07.rs", "kind_free_text": "explicit-state BFS over read histories of the real process future, states merged on (stream position, hooked loop state, observation digest), re-execution from the initial state along the recorded history"},
+ {"name": "hist-bfs", "path": "harness/mc/src/bin/c09.rs", "kind_free_text": "level-synchronous parallel BFS over operation histories of the real error queue, merged on canonical queue state"},
  {"name": "env-enum", "path": "harness/mc/src/env.rs", "kind_free_text": "scripted transport: all compositions of a stream into reads, zero-length reads, Pending patterns up to a deviation bound, a fault at every call index"},
 ]
 
